@@ -115,6 +115,10 @@ struct Case {
     /// also fit every configuration on a column-major copy and on a transposed view of the records
     #[serde(default)]
     layouts: bool,
+    /// also build every configuration through all 120 orders of the five setters, plain and with
+    /// decoy writes first
+    #[serde(default)]
+    builder_orders: bool,
     /// every configuration is fitted, in this order, on one fresh thread
     configs: Vec<Config>,
 }
@@ -156,12 +160,16 @@ struct Lite {
     grid: u8,    // 0 full, 1 small, 2 / 3 weak-split (f64 / f32)
     hash_seed: u64,
     layouts: bool,
+    builder_orders: bool,
 }
 
 fn grid(kind: u8, weights: u8) -> Vec<Config> {
     let crits = ["gini", "entropy"];
     let (depths, mws, mids): (Vec<Option<usize>>, Vec<f32>, Vec<f64>) = if kind == 0 {
         (vec![None, Some(0), Some(1), Some(2)], vec![1.0, 2.0, 2.5, 3.0, 3.5], vec![1e-5, 0.1, 0.3])
+    } else if kind == 4 {
+        // grid for the 1025 / 4097 row datasets: limits of the order of the node sizes
+        (vec![None, Some(1), Some(2)], vec![2.0, 600.5, 1100.0], vec![1e-5, 0.1])
     } else if kind >= 2 {
         // weak-split grid: min_impurity_decrease far below the default 1e-5 (f32 parameters must be
         // >= f32::EPSILON, hence 2e-7 there), so that splits with a decrease of ~2e-6 are accepted
@@ -171,7 +179,9 @@ fn grid(kind: u8, weights: u8) -> Vec<Config> {
     };
     // with all weights 0.5 a leaf weight of 2 needs 4 rows per side: use {0.5, 1} there
     // with weights around 500 per row: 1 = always met, 600 = two rows per side, 1001 = three
-    let mwl: Vec<f32> = if weights == 2 {
+    let mwl: Vec<f32> = if kind == 4 {
+        vec![1.0, 300.0, 1500.0]
+    } else if weights == 2 {
         vec![0.5, 1.0]
     } else if weights == 3 {
         vec![1.0, 600.0, 1001.0]
@@ -212,6 +222,7 @@ fn expand(l: &Lite, with_configs: bool) -> Case {
         weights,
         hash_seed: l.hash_seed,
         layouts: l.layouts,
+        builder_orders: l.builder_orders,
         configs: if with_configs { grid(l.grid, l.weights) } else { Vec::new() },
     }
     .exact()
@@ -266,6 +277,10 @@ struct Stats {
     layout_comparisons: u64,
     #[serde(default)]
     predict_layout_comparisons: u64,
+    #[serde(default)]
+    builder_orders_checked: u64,
+    #[serde(default)]
+    large_fits: u64,
     violations_not_stored: u64,
     child_processes: u64,
     child_aborts: u64,
@@ -294,6 +309,8 @@ impl Stats {
         self.violating_evals += o.violating_evals;
         self.layout_comparisons += o.layout_comparisons;
         self.predict_layout_comparisons += o.predict_layout_comparisons;
+        self.builder_orders_checked += o.builder_orders_checked;
+        self.large_fits += o.large_fits;
         self.violations_not_stored += o.violations_not_stored;
         self.child_processes += o.child_processes;
         self.child_aborts += o.child_aborts;
@@ -890,13 +907,103 @@ fn check_one<F: Float, L: Label + Default + std::fmt::Debug, D: ndarray::Data<El
     if !case.layouts {
         return None;
     }
+    Some(summarize(&tree, &pred))
+}
+
+/// Canonical description of a fitted tree: nodes in level order with bit-exact numbers + the
+/// predictions of the training rows (long prediction vectors are folded into a checksum-like form).
+fn summarize<F: Float, L: Label + std::fmt::Debug>(tree: &DecisionTree<F, L>, pred: &Array1<L>) -> String {
     let mut summary = String::new();
     for nd in tree.iter_nodes() {
         let (f, t, dcr) = nd.split();
         summary.push_str(&format!("[d{} leaf={} f{} thr={:016x} dec={:016x} pred={:?}]", nd.depth(), nd.is_leaf(), f, to64(t).to_bits(), to64(dcr).to_bits(), nd.prediction()));
     }
     summary.push_str(&format!(" predictions={:?}", pred.iter().collect::<Vec<_>>()));
-    Some(summary)
+    summary
+}
+
+const SETTERS: [&str; 5] = ["split_quality", "max_depth", "min_weight_split", "min_weight_leaf", "min_impurity_decrease"];
+
+/// Builds the parameters of `cfg` calling the five setters in `order`; with `decoy` every setter is
+/// first called (in the same order) with a value that must not survive.
+fn build_params<F: Float, L: Label>(cfg: &Config, order: &[usize], decoy: bool) -> linfa_trees::DecisionTreeParams<F, L> {
+    let quality = if cfg.criterion == "gini" { SplitQuality::Gini } else { SplitQuality::Entropy };
+    let other_quality = if cfg.criterion == "gini" { SplitQuality::Entropy } else { SplitQuality::Gini };
+    let mut p = DecisionTree::<F, L>::params();
+    let passes: &[bool] = if decoy { &[true, false] } else { &[false] };
+    for &is_decoy in passes {
+        for &k in order {
+            p = match (k, is_decoy) {
+                (0, false) => p.split_quality(quality),
+                (0, true) => p.split_quality(other_quality),
+                (1, false) => p.max_depth(cfg.max_depth),
+                (1, true) => p.max_depth(if cfg.max_depth == Some(7) { None } else { Some(7) }),
+                (2, false) => p.min_weight_split(cfg.min_weight_split),
+                (2, true) => p.min_weight_split(77.0),
+                (3, false) => p.min_weight_leaf(cfg.min_weight_leaf),
+                (3, true) => p.min_weight_leaf(55.0),
+                (4, false) => p.min_impurity_decrease(F::cast(cfg.min_impurity_decrease)),
+                _ => p.min_impurity_decrease(F::cast(0.77)),
+            };
+        }
+    }
+    p
+}
+
+/// Builder history: every order of the five setters (and every order with decoy writes first) must
+/// publish the values that were set and fit the same tree as the canonical order.
+fn check_builder_orders<F: Float, L: Label + Default + std::fmt::Debug>(ci: usize, cfg: &Config, ds: &Dataset<F, L, ndarray::Ix1>, recs: &Array2<F>, viols: &mut Vec<RawViol>, st: &mut Stats) {
+    use linfa::ParamGuard;
+    let quality = if cfg.criterion == "gini" { SplitQuality::Gini } else { SplitQuality::Entropy };
+    let fit_summary = |p: &linfa_trees::DecisionTreeParams<F, L>| -> Result<(String, bool), String> {
+        match guarded(|| p.fit(ds)) {
+            Ok(Ok(t)) => match guarded(|| t.predict(recs)) {
+                Ok(pred) => Ok((summarize(&t, &pred), !t.root_node().is_leaf())),
+                Err(e) => Err(format!("predict panicked: {}", e)),
+            },
+            Ok(Err(e)) => Err(format!("fit returned Err({})", e)),
+            Err(e) => Err(format!("fit panicked: {}", e)),
+        }
+    };
+    let canonical_order = [0usize, 1, 2, 3, 4];
+    let canonical = fit_summary(&build_params::<F, L>(cfg, &canonical_order, false));
+    let mut reported = false;
+    for perm in en::permutations(5) {
+        for decoy in [false, true] {
+            st.evals += 1;
+            st.builder_orders_checked += 1;
+            let p = build_params::<F, L>(cfg, &perm, decoy);
+            let names: Vec<&str> = perm.iter().map(|&k| SETTERS[k]).collect();
+            let mut problem: Option<String> = None;
+            match p.check_ref() {
+                Ok(v) => {
+                    let got = (v.split_quality(), v.max_depth(), v.min_weight_split(), v.min_weight_leaf(), to64(v.min_impurity_decrease()));
+                    let want = (quality, cfg.max_depth, cfg.min_weight_split, cfg.min_weight_leaf, to64(F::cast(cfg.min_impurity_decrease)));
+                    if got != want {
+                        problem = Some(format!("the checked parameters publish (split_quality, max_depth, min_weight_split, min_weight_leaf, min_impurity_decrease) = {:?} but {:?} was set", got, want));
+                    }
+                }
+                Err(e) => problem = Some(format!("check_ref() rejects the parameters: {}", e)),
+            }
+            if problem.is_none() {
+                let got = fit_summary(&p);
+                if let Ok((_, true)) = &got {
+                    st.nontrivial += 1;
+                }
+                if got.as_ref().map(|x| &x.0).map_err(|e| e.clone()) != canonical.as_ref().map(|x| &x.0).map_err(|e| e.clone()) {
+                    problem = Some(format!("the fitted tree differs from the tree of the canonical setter order: canonical {:?} | this order {:?}", canonical.as_ref().map(|x| &x.0), got.as_ref().map(|x| &x.0)));
+                }
+            }
+            if let (Some(pb), false) = (problem, reported) {
+                reported = true;
+                viols.push(RawViol {
+                    sig: "tree.params.builder_order_dependence".into(),
+                    what: format!("[config #{} {:?}] setters called in the order {:?}{}: {}", ci, cfg, names, if decoy { " (each first with a decoy value, in the same order)" } else { "" }, pb),
+                    at: json!({"config_index": ci, "config": cfg, "setter_order": names, "decoy_writes_first": decoy}),
+                });
+            }
+        }
+    }
 }
 
 fn run_typed<F: Float, L: Label + Default + std::fmt::Debug>(case: &Case, names: &[L], skip: &[usize], sink: &mut dyn FnMut(Event)) {
@@ -929,10 +1036,12 @@ fn run_typed<F: Float, L: Label + Default + std::fmt::Debug>(case: &Case, names:
     let fm: Array2<F> = Array2::from_shape_fn((d, n), |(j, i)| recs[(i, j)]);
     let rev: Array2<F> = Array2::from_shape_fn((n, d), |(i, j)| recs[(n - 1 - i, j)]);
     let big: Array2<F> = Array2::from_shape_fn((2 * n, d), |(i, j)| if i % 2 == 0 { recs[(i / 2, j)] } else { poison });
-    let with_w = |dsx: linfa::DatasetBase<ndarray::ArrayView2<'_, F>, Array1<L>>| match &case.weights {
-        Some(wv) => dsx.with_weights(Array1::from(wv.clone())),
-        None => dsx,
-    };
+    fn with_w<'v, F: Float, L: Label>(dsx: linfa::DatasetBase<ndarray::ArrayView2<'v, F>, Array1<L>>, w: &Option<Vec<f32>>) -> linfa::DatasetBase<ndarray::ArrayView2<'v, F>, Array1<L>> {
+        match w {
+            Some(wv) => dsx.with_weights(Array1::from(wv.clone())),
+            None => dsx,
+        }
+    }
     struct Layouts<'a, F: Float, L: Label> {
         cm: Array2<F>,
         ds_cm: linfa::DatasetBase<Array2<F>, Array1<L>>,
@@ -953,9 +1062,9 @@ fn run_typed<F: Float, L: Label + Default + std::fmt::Debug>(case: &Case, names:
             Some(Layouts {
                 cm: cm.clone(),
                 ds_cm,
-                ds_tv: with_w(linfa::DatasetBase::new(tv.clone(), targets.clone())),
-                ds_rv: with_w(linfa::DatasetBase::new(rv.clone(), targets.clone())),
-                ds_ev: with_w(linfa::DatasetBase::new(ev.clone(), targets.clone())),
+                ds_tv: with_w(linfa::DatasetBase::new(tv.clone(), targets.clone()), &case.weights),
+                ds_rv: with_w(linfa::DatasetBase::new(rv.clone(), targets.clone()), &case.weights),
+                ds_ev: with_w(linfa::DatasetBase::new(ev.clone(), targets.clone()), &case.weights),
             }),
             vec![
                 ("standard-layout array", recs.view()),
@@ -980,6 +1089,12 @@ fn run_typed<F: Float, L: Label + Default + std::fmt::Debug>(case: &Case, names:
         }
         st.distinct_class_counts[distinct.len().min(6)] += 1;
         let standard = check_one(case, ci, cfg, "standard layout", &ds, &recs, &alt, &data, &mut viols, &mut st);
+        if n > 1000 {
+            st.large_fits += 1 + if case.layouts { 4 } else { 0 };
+        }
+        if case.builder_orders {
+            check_builder_orders::<F, L>(ci, cfg, &ds, &recs, &mut viols, &mut st);
+        }
         if let Some(lay) = &lay {
             // the same logical records in four other memory layouts: every oracle again on each, and
             // the fitted tree must be the very same tree
@@ -1373,7 +1488,7 @@ fn push_family(out: &mut Vec<Lite>, family: &'static str, alphabet: &[Vec<f64>],
             if v.label == "bool" && classes > 2 {
                 continue;
             }
-            out.push(Lite { family, float: v.float, label_type: v.label, alphabet: alphabet.clone(), xi: xi.clone(), y: y.clone(), weights: v.weights, grid: v.grid, hash_seed: v.hash_seed, layouts: v.layouts });
+            out.push(Lite { family, float: v.float, label_type: v.label, alphabet: alphabet.clone(), xi: xi.clone(), y: y.clone(), weights: v.weights, grid: v.grid, hash_seed: v.hash_seed, layouts: v.layouts, builder_orders: family == "builder_orders" });
         }
     }
 }
@@ -1442,8 +1557,10 @@ fn enumerate_cases(ctx: &Ctx) -> Vec<Lite> {
     let alpha_b = pts(2, 2);
     for n in 1..=ctx.pick(4, 5) {
         let sets = datasets(4, n, 6);
-        let mut vars = vec![vl("f64", "usize", 0, if n <= 4 { 0 } else { 1 }, 0)];
-        if n == 5 {
+        // layouts: full grid up to n = 3 (quick) / 4 (thorough), small grid for the largest n
+        let lay_full = n <= ctx.pick(3, 4);
+        let mut vars = vec![vl("f64", "usize", 0, if lay_full { 0 } else { 1 }, 0)];
+        if !lay_full {
             vars.push(v("f64", "usize", 0, 0, 0));
         }
         vars.push(v("f64", "usize", 1, if n <= 4 { 0 } else { 1 }, 0));
@@ -1462,7 +1579,10 @@ fn enumerate_cases(ctx: &Ctx) -> Vec<Lite> {
     let alpha_d = pts(2, 3);
     for n in 1..=ctx.pick(3, 4) {
         let sets = datasets(9, n, 6);
-        let mut vars = if n <= 3 { vec![v("f64", "usize", 0, 0, 0), vl("f64", "usize", 1, 1, 0)] } else { vec![vl("f64", "usize", 0, 1, 0)] };
+        let mut vars = if n <= 3 { vec![v("f64", "usize", 0, 0, 0)] } else { vec![vl("f64", "usize", 0, 1, 0)] };
+        if n <= ctx.pick(2, 3) {
+            vars.push(vl("f64", "usize", 1, 1, 0));
+        }
         if n <= 3 {
             vars.push(v("f32", "bool", 0, 0, 0));
         }
@@ -1476,10 +1596,36 @@ fn enumerate_cases(ctx: &Ctx) -> Vec<Lite> {
     for n in 1..=ctx.pick(3, 4) {
         let sets = datasets(8, n, 6);
         let mut vars = vec![vl("f64", "usize", 0, 1, 0)];
-        if n <= 3 {
+        if n <= ctx.pick(2, 3) {
             vars.push(vl("f32", "bool", 1, 1, 0));
         }
         push_family(&mut out, "3f_lattice2x2x2", &alpha_f, &sets, &vars);
+    }
+    // G: size thresholds: 2-feature base datasets of n0 rows cycled to 1025 / 4097 rows
+    for n0 in 2..=ctx.pick(2, 3) {
+        let bases = datasets(4, n0, 6);
+        for big_n in [1025usize, 4097] {
+            let sets: Vec<(Vec<u8>, Vec<u8>)> = bases.iter().map(|(xi, y)| ((0..big_n).map(|i| xi[i % n0]).collect(), (0..big_n).map(|i| y[i % n0]).collect())).collect();
+            let mut vars = vec![v("f64", "usize", 0, 4, 0)];
+            if ctx.thorough() {
+                vars.push(v("f32", "string", 1, 4, 0));
+            }
+            if n0 == 2 && (big_n == 1025 || ctx.thorough()) {
+                vars.push(vl("f32", "usize", 1, 4, 0));
+            }
+            push_family(&mut out, "large_replicated_2f", &alpha_b, &sets, &vars);
+        }
+    }
+    // H: builder history: a spread of small datasets, every configuration of the small grid built
+    // through all 120 setter orders, plain and with decoy writes first
+    {
+        let all: Vec<(Vec<u8>, Vec<u8>)> = datasets(3, 4, 6).into_iter().filter(|(xi, y)| xi.iter().any(|&a| a != xi[0]) && y.iter().any(|&k| k != y[0])).collect();
+        let stride = ctx.pick(30, 6);
+        let sets: Vec<(Vec<u8>, Vec<u8>)> = all.into_iter().step_by(stride).collect();
+        push_family(&mut out, "builder_orders", &alpha_a, &sets, &[v("f64", "usize", 1, 1, 0)]);
+        if ctx.thorough() {
+            push_family(&mut out, "builder_orders", &alpha_a, &sets, &[v("f32", "string", 0, 1, 1)]);
+        }
     }
     // C: adjacency family: four consecutive floats whose spacing is above the subject's 1e-5
     // "equal values" margin, so that the midpoint of two neighbours rounds onto one of them
@@ -1527,7 +1673,9 @@ fn main() {
         "case = (dataset, float type, label type, sample weights, hash seed) fitted under every configuration of a grid; \
          datasets: ALL value sequences of n rows over the family's alphabet x ALL labelings up to renaming of the classes (restricted growth strings, <= 6 classes; \
          includes duplicates with conflicting labels, constant features, single-class sets): 1 feature over {0,1,2} (n <= 5 quick / 6 thorough; quick adds n = 6 with >= 5 classes on the small grid), 1 feature over {0,1,2,3} (n <= 4 / 5), \
-         2 features over {0,1}^2 (n <= 4 / 5), 2 features over {0,1,2}^2 (n <= 3 / 4), 3 features over {0,1}^3 (n <= 3 / 4, small grid); memory layouts: the multi-feature families are additionally fitted (all of 3f; 2x2: unweighted full grid n <= 4 + a f32 small-grid variant; 3x3: a weighted small-grid variant) from a column-major owned array and from a transposed view of a feature-major array - every oracle again on each layout, and the tree (nodes with bit-exact thresholds / decreases, predictions of the training rows) must equal the standard-layout tree (fit.layout_dependence), adjacency families = 4 consecutive floats at 2^24 and 256 (f32), 2^53 and 2^40 (f64) (n <= 3 / 4, <= 3 classes; fit can overflow the stack there), \
+         2 features over {0,1}^2 (n <= 4 / 5), 2 features over {0,1,2}^2 (n <= 3 / 4), 3 features over {0,1}^3 (n <= 3 / 4, small grid); memory layouts: the multi-feature families are additionally fitted (all of 3f; 2x2: unweighted, full grid for n <= 3 / 4, small grid for the largest n, + a f32 small-grid variant; 3x3: a weighted small-grid variant; large-n: a f32 variant) from a column-major owned array, a transposed view of a feature-major array, a reversed-row view of a reversed copy and an every-second-row view of a larger array whose filler rows hold poison values - every oracle again on each layout, the tree (nodes with bit-exact thresholds / decreases, predictions of the training rows) must equal the standard-layout tree (fit.layout_dependence), and every fitted tree must predict the same labels for the training rows handed over in each of the five layouts (predict.layout_dependence); \
+         size thresholds: every 2-feature dataset of 2 (quick) / 2..3 (thorough) rows over {0,1}^2 cycled to 1025 and 4097 rows, large-n grid = 2 x {None,1,2} x min_weight_split {2,600.5,1100} x min_weight_leaf {1,300,1500} x {1e-5,0.1} (108); \
+         builder history: every 30th (quick) / 6th (thorough) informative 4-row dataset over {0,1,2}, small grid, each configuration built through all 120 orders of the five setters, plain and with decoy writes first: checked parameters must publish the values set and the fitted tree must equal the canonical-order tree (tree.params.builder_order_dependence; each order = one evaluation), adjacency families = 4 consecutive floats at 2^24 and 256 (f32), 2^53 and 2^40 (f64) (n <= 3 / 4, <= 3 classes; fit can overflow the stack there), \
          near-equal family {0, 8e-6, 1.6e-5, 2.6e-5, 1} (n <= 4 / 5); label types usize / bool / String; weights none / 1,2,1,2.. / all 0.5 / cycling 501,499,499,501 (nearly balanced nodes, run on the weak-split grid = 2 x {None,1,2} x {1,2,2.5} x min_weight_leaf {1,600,1001} x min_impurity_decrease {1e-9 (f64) or 2e-7 (f32), 1e-5, 0.1} (162) on 1 feature over {0,1,2} with n <= 4 / 5 and {0,1}^2 with n <= 4); \
          full grid = {gini, entropy} x max_depth {None,0,1,2} x min_weight_split {1,2,2.5,3,3.5} (non-integer values: a node reached by floor(v) rows must not be split) x min_weight_leaf {1,2} ({0.5,1} with weights 0.5) x min_impurity_decrease {1e-5,0.1,0.3} (240), \
          small grid (adjacency / near-equal) = 2 x {None,1,2} x {1,2,2.5} x {1,2} x {1e-5,0.1} (72). \
@@ -1569,7 +1717,7 @@ fn main() {
         totals.lock().unwrap().merge(&st);
         *fam_nontrivial.lock().unwrap().entry(l.family).or_default() += st.nontrivial;
         done.fetch_add(1, std::sync::atomic::Ordering::Relaxed);
-        ctx.sample(|| json!({"family": case.family, "float": case.float, "label_type": case.label_type, "x": case.x, "y": case.y, "weights": case.weights, "hash_seed": case.hash_seed, "layouts": if case.layouts { "standard + column-major + transposed view" } else { "standard" }, "grid": match l.grid { 0 => "full (240 configurations)", 1 => "small (72 configurations)", _ => "weak-split (162 configurations, min_impurity_decrease down to 1e-9 / 2e-7)" }}));
+        ctx.sample(|| json!({"family": case.family, "float": case.float, "label_type": case.label_type, "x": case.x, "y": case.y, "weights": case.weights, "hash_seed": case.hash_seed, "layouts": if case.layouts { "standard + column-major + transposed view" } else { "standard" }, "grid": match l.grid { 0 => "full (240 configurations)", 1 => "small (72 configurations)", 4 => "large-n (108 configurations: min_weight_split {2,600.5,1100}, min_weight_leaf {1,300,1500})", _ => "weak-split (162 configurations, min_impurity_decrease down to 1e-9 / 2e-7)" }}));
     });
     let t = totals.lock().unwrap().clone();
     let done = done.load(std::sync::atomic::Ordering::Relaxed);
@@ -1593,6 +1741,8 @@ fn main() {
     ctx.extra("evaluations_with_a_violation", json!(t.violating_evals));
     ctx.extra("trees_compared_with_the_standard_layout_tree", json!(t.layout_comparisons));
     ctx.extra("predict_calls_on_other_layouts_compared", json!(t.predict_layout_comparisons));
+    ctx.extra("setter_orders_built_checked_and_fitted", json!(t.builder_orders_checked));
+    ctx.extra("fits_on_1025_or_4097_rows", json!(t.large_fits));
     ctx.extra("violations_counted_but_not_stored_beyond_2_per_signature_and_case", json!(t.violations_not_stored));
     ctx.extra("worker_processes_started", json!(t.child_processes));
     ctx.extra("worker_processes_killed_by_stack_overflow", json!(t.child_aborts));
